@@ -63,6 +63,10 @@ def status_guard(body, block, facts):
     """state asserted about a `.status` value by the literals dominating block: variant name or None"""
     st = None
     for l in lits_of(body, block, facts):
+        if l.kind == "variant" and l.adt == STATUS and l.variants and len(l.variants) == 1 and \
+                any(z[0] == "field" and z[2] == "status" for z in walk(l.term)):
+            st = next(iter(l.variants))      # `match status { Status::X => .. }`
+            continue
         if l.kind == "call" and callee_name(l.term) in ("eq", "ne") and len(l.term[2]) == 2:
             c = l.term[4]
             if c is None or STATUS not in (c.self_ty or c.full):
@@ -301,8 +305,8 @@ def _same_delta(body, block, arg, facts):
         return out
     a = srcs(arg)
     for l in lits_of(body, block, facts):
-        if l.kind == "call" and callee_name(l.term) == "eq":
-            for x in l.term[2]:
+        if (l.kind == "call" and callee_name(l.term) == "eq") or (l.kind == "variant" and l.adt == STATUS):
+            for x in (l.term[2] if l.kind == "call" else [l.term]):
                 if any(z[0] == "field" and z[2] == "status" for z in walk(x)):
                     # ignore the guard variables themselves: compare on the underlying element
                     sx = srcs(x)
